@@ -803,6 +803,37 @@ theorem C42_call_contract (p : Bool) {s : St} (h : (ts p).Reachable s) {t : Tid}
     simp
   · cases hc
 
+/-- **`serve()` always notifies**: a thread that entered `serve()` / `_notify_transport(b)` can do nothing but take the
+lock — there is no path from `serve b` to a dispatch that skips the notification (with `C42_call_contract`: when it
+releases the lock the recorded binding is its own `b`, the hook having run for it unless `b` was already recorded) -/
+theorem C42_serve_must_notify {p : Bool} {s s' : St} {t : Tid} {b : B} {l : Label} (hw : s.pc t = .want b)
+    (hl : l.tid = t) (hst : cstep p s l = some s') : l = .acq t ∧ s'.pc t = .locked b := by
+  cases l <;> simp only [Label.tid] at hl <;> subst hl
+  case acq =>
+    obtain ⟨b', hp, _, rfl⟩ := Aux.step_acq hst
+    rw [hw] at hp; cases hp
+    exact ⟨rfl, by simp only [upd_same]⟩
+  case req => have := (Aux.step_req hst).1; rw [hw] at this; cases this
+  case serve => have := (Aux.step_serve hst).1; rw [hw] at this; cases this
+  case done => have := (Aux.step_done hst).1; rw [hw] at this; cases this
+  case failed => have := (Aux.step_failed hst).1; rw [hw] at this; cases this
+  case dispatch => have := (Aux.step_dispatch hst).1; rw [hw] at this; cases this
+  case rdKind =>
+    obtain ⟨_, h⟩ := Aux.step_rdKind hst
+    rcases h with ⟨h, _⟩ | ⟨_, h, _⟩ | ⟨h, _⟩ <;> rw [hw] at h <;> cases h
+  case rdCaps =>
+    obtain ⟨_, h⟩ := Aux.step_rdCaps hst
+    rcases h with ⟨_, h, _⟩ | ⟨h, _⟩ <;> rw [hw] at h <;> cases h
+  case rel =>
+    obtain ⟨_, h⟩ := Aux.step_rel hst
+    rcases h with ⟨_, h, _⟩ | ⟨_, h, _⟩ <;> rw [hw] at h <;> cases h
+  case hookStart => obtain ⟨_, h, _⟩ := Aux.step_hookStart hst; rw [hw] at h; cases h
+  case hookOk => obtain ⟨_, h, _⟩ := Aux.step_hookOk hst; rw [hw] at h; cases h
+  case hookRaise => obtain ⟨_, h, _⟩ := Aux.step_hookRaise hst; rw [hw] at h; cases h
+  case wrKind =>
+    rcases Aux.step_wrKind hst with ⟨_, h, _⟩ | ⟨_, h, _⟩ <;> rw [hw] at h <;> cases h
+  case wrCaps => obtain ⟨_, h, _⟩ := Aux.step_wrCaps hst; rw [hw] at h; cases h
+
 /-- the binding is written only by `wrKind` / `wrCaps` steps of a thread whose hook has returned (or, without a
 hook, that found its target not recorded) — in particular never by a thread whose hook raised -/
 theorem C42_writes {p : Bool} {s s' : St} {l : Label} (hst : cstep p s l = some s') :
